@@ -563,4 +563,4 @@ def run(cx):
     c03.rule_global_init(cx, "C01-GLOBAL-INIT")
 
     # ---- C01-DISPATCH (shared with C07) ------------------------------------------------------
-    c07.rule_dispatch(cx, "C01")
+    c07.rule_account(cx, "C01")
